@@ -1,9 +1,9 @@
 #!/bin/bash
 # tools/seedsweep.sh <seed> ... : run every quick check under the given seeds, outputs to a scratch out dir (evidence untouched)
-cd /verif
+cd "$(dirname "$0")/.."
 for s in "$@"; do
   for c in C01 C02 C03 C04 C05 C06 C07 C08 C09 C10 C11 C12 C13 C14 C15 C16 C17 C18 C19 C20; do
-    t0=$(date +%s); out=$(VERIF_SEED=$s VERIF_OUT_DIR=/tmp/seedsweep-out ./check $c 2>&1); rc=$?; t1=$(date +%s)
+    t0=$(date +%s); out=$(VERIF_SEED=$s VERIF_OUT_DIR=${SWEEP_OUT:-/tmp/seedsweep-out} ./check $c 2>&1); rc=$?; t1=$(date +%s)
     echo "seed=$s $c rc=$rc wall=$((t1-t0))s $(echo "$out" | grep '^VIOLATION' | head -1 | cut -c1-160)"
   done
 done
